@@ -45,12 +45,13 @@ Record state := mkState {
   ld : option Z;             (* Timer::LossDetection *)
   pacing : option Z;         (* Timer::Pacing *)
   in_dgram : option bool;    (* Some b while handle_event(Datagram) runs; b = was_anti_amplification_blocked *)
-  stale : bool               (* ghost: state became Established after the last set_loss_detection_timer *)
+  stale : bool               (* ghost: set_loss_detection_timer has not run since the connection was created or
+                                (unrepaired variant) since the state became Established / a Retry arrived *)
 }.
 
 Definition init (is_client path_validated : bool) : state :=
   mkState (space0 true) (space0 false) (space0 false) is_client false 0 0
-          (is_client || path_validated) 0 0 0 None None None false.
+          (is_client || path_validated) 0 0 0 None None None true.
 
 Definition sp (s : state) (i : Z) : space :=
   if i =? 0 then sI s else if i =? 1 then sH s else sD s.
@@ -137,6 +138,42 @@ Definition pto_time_and_space (maxexp : Z) (c : clock) (s : state) : option (Z *
       if handshaking s then r1
       else match tlae (sD s) with Some t => pto_pick r1 (t + (dur + mad c * b)) 2 | None => r1 end
     else r1.
+
+(** The exact condition under which [set_loss_detection_timer] arms the timer (given the path is
+    not anti-amplification blocked and the connection is open). *)
+Definition pto_eligible (s : state) : bool :=
+  (has_in_flight (sI s) && is_some (tlae (sI s)))
+  || (has_in_flight (sH s) && is_some (tlae (sH s)))
+  || (has_in_flight (sD s) && negb (handshaking s) && is_some (tlae (sD s))).
+Definition needs_b (s : state) : bool :=
+  is_some (loss_time_and_space s)
+  || (if ae_total s =? 0 then negb (peer_completed s) else pto_eligible s).
+
+(** Readable form: a loss time is pending; or ack-eliciting packets are in flight in the Initial or
+    Handshake space, or in the Data space once the handshake is complete; or nothing is in flight
+    and the client has no proof yet that the server validated its address. *)
+Definition needs (s : state) : Prop :=
+  loss_time (sI s) <> None \/ loss_time (sH s) <> None \/ loss_time (sD s) <> None
+  \/ 0 < ae (sI s) \/ 0 < ae (sH s) \/ (0 < ae (sD s) /\ phase s <> 0)
+  \/ (ae_total s = 0 /\ peer_completed s = false).
+
+(** Well-formedness of the bookkeeping (an invariant of [step], proved in Proofs/RecoveryWf.v). *)
+Definition wf_space (x : space) : Prop :=
+  0 <= ae x /\ 0 <= nae x /\ 0 <= probes x /\ (0 < ae x -> is_some (tlae x) = true).
+Definition wf (s : state) : Prop :=
+  wf_space (sI s) /\ wf_space (sH s) /\ wf_space (sD s)
+  /\ (has_in_flight (sI s) = true -> keys (sI s) = true)
+  /\ (has_in_flight (sH s) = true -> keys (sH s) = true)
+  /\ (has_in_flight (sD s) = true -> sendable s 2 = true)
+  /\ (highest s = 0 \/ highest s = 1 \/ highest s = 2)
+  /\ (highest s = 0 -> keys (sI s) = true /\ keys (sH s) = false /\ keys (sD s) = false)
+  /\ (highest s = 1 -> keys (sH s) = true /\ keys (sD s) = false).
+
+(** The timer invariant. [stale] can only be set by the unrepaired variant ([fixd = false]). *)
+Definition Inv (s : state) : Prop :=
+  closed s = false -> in_dgram s <> Some true -> blocked s 1 = false -> needs_b s = true ->
+  is_some (ld s) = true \/ stale s = true.
+Definition Inv2 (s : state) : Prop := in_dgram s = Some false -> blocked s 1 = false.
 
 Section Step.
   (** [MAX_BACKOFF_EXPONENT]; [fixd] selects the repaired handshake completion (re-arm after
@@ -228,8 +265,15 @@ Section Step.
                else s
              else discard c s 1 in
     let s := with_conn s (zero_rtt s) 1 (highest s) in
-    let s := with_ld s (ld s) true in
-    if fixd then set_ld_timer c s else s.
+    if fixd then set_ld_timer c s else with_ld s (ld s) true.
+
+  (** Retry: packet 0 acknowledged, [discard_space(Initial)], a fresh Initial space with new keys,
+      then "Retransmit all 0-RTT data" forgets the Data-space packets. *)
+  Definition do_retry (c : clock) (s : state) : state :=
+    let s := with_sp (discard c s 0) 0 (space0 true) in
+    let x := sD s in
+    let s := with_sp s 2 (mkSpace 0 0 (loss_time x) (tlae x) (probes x) (keys x) (acked x)) in
+    if fixd then set_ld_timer c s else with_ld s (ld s) true.
 
   Definition expired (t : option Z) (n : Z) : bool :=
     match t with Some d => d <=? n | None => false end.
@@ -304,7 +348,7 @@ Section Step.
         then discard c s i else s
     | ORetry c =>
         if client s && (highest s =? 0) && is_some (in_dgram s) && keys (sI s)
-        then with_sp (discard c s 0) 0 (space0 true) else s
+        then do_retry c s else s
     | OValidated =>
         if is_some (in_dgram s) then with_path s true (total_sent s) (total_recvd s) else s
     | OEstablished c rej =>
